@@ -171,8 +171,34 @@ def judge_forms(version, f):
     return forms.judge(lambda bb, ll: t.tau_exit_prob(bb, ll), [np.array(FORM_B), np.array(FORM_LE)], tuple(f), what="tau_exit_prob")
 
 
+def judge_call_forms(version):
+    """the 0-d array, NumPy scalar and 2-d forms of a call return what the 1-d call returns, for angles below the
+    minimum, in range, on the edges and above the maximum (Python floats are not accepted by the unchanged tree)"""
+    T = TR.load(version)
+    bax = T["pexit_axes"]["beta_rad"]
+    t = taus(version, fresh=True)
+    out = []
+    for b in (0.0, float(bax[0]) / 2, float(bax[0]), 0.3, float(bax[-1]), float(np.nextafter(bax[-1], 4.0)), 1.0, math.pi / 2):
+        for le in (6.0, 7.1, 9.5, 12.0):
+            ref = np.asarray(t.tau_exit_prob(np.array([b]), np.array([le])))[0]
+            for name, bb, ll in (("0-d array", np.array(b), np.array(le)), ("numpy scalar", np.float64(b), np.float64(le)), ("2-d array", np.array([[b, b]]), np.array([[le, le]]))):
+                try:
+                    r = np.asarray(t.tau_exit_prob(bb, ll), dtype=float)
+                except Exception as ex:
+                    out.append(("call_forms_agree", f"{name} beta={b} logE={le}: {ref!r}", f"{type(ex).__name__}: {str(ex)[:60]}"))
+                    continue
+                if r.shape != np.shape(bb) or not np.all(r == ref):
+                    out.append(("call_forms_agree", f"{name} beta={b} logE={le}: {ref!r}", r.ravel()[:2].tolist()))
+    return out
+
+
 def run(ctx):
     from .. import forms, pipeline
+
+    for ver in (1, 2, 3):
+        ctx.tick(96, ("call_forms", ver))
+        for c, e, o in judge_call_forms(ver)[:3]:
+            ctx.violation(c, {"kind": "call_forms", "version": ver}, e, o)
 
     # input forms: the angles / log-energies as integer, single-precision and byte-swapped arrays
     for ver in (1, 2, 3):
@@ -274,6 +300,8 @@ def replay(case):
     k = case["kind"]
     if k == "forms":
         return judge_forms(case["version"], case["forms"])
+    if k == "call_forms":
+        return judge_call_forms(case["version"])
     if k == "node":
         v, _ = judge_nodes(case["version"])
         return [(c, e, o) for c, ij, e, o in v if ij == (case["i"], case["j"])]
